@@ -11,7 +11,7 @@ VARIABLES hist     \* operation history (hidden from the state by VIEW)
 
 Op(o, k, v) == [op |-> o, k |-> k, v |-> v]
 
-Init == /\ map = <<>> /\ queue = <<>> /\ cap \in Caps /\ hist = <<>>
+Init == /\ map = EmptyMap /\ queue = <<>> /\ cap \in Caps /\ hist = <<>>
 
 Emit(h) == PRINT => PrintT(<<"REPLAY", ToJson([cap |-> cap, ops |-> h])>>)
 
@@ -25,6 +25,6 @@ View == <<map, queue, cap>>
 
 \* properties of the design
 EvictsOldest ==
-  [][\A k \in Keys : (k \in Stored /\ k \notin DOMAIN map' /\ map' # <<>>) => k = Head(queue)]_<<map, queue, cap>>
+  [][\A k \in Keys : (k \in Stored /\ k \notin DOMAIN map' /\ map' # EmptyMap) => k = Head(queue)]_<<map, queue, cap>>
 LookupExact == \A k \in Keys : GetResult(map, k)[1] <=> k \in Range(queue)
 =============================================================================
